@@ -97,6 +97,17 @@ func PinAlphabet() []PinVariant {
 			p.Allocations = []peer.ID{PID(1)}
 			return p
 		}},
+		{"first-shard(ref-undefined)", func(c cid.Cid) *api.Pin {
+			// what adder/sharding submits for the first shard: the
+			// "previous shard" reference points at the undefined CID
+			p := api.PinCid(c)
+			p.Type = api.ShardType
+			undef := cid.Undef
+			p.Reference = &undef
+			p.MaxDepth = 1
+			p.ReplicationFactorMin, p.ReplicationFactorMax = -1, -1
+			return p
+		}},
 		{"update-v1", func(c cid.Cid) *api.Pin {
 			p := api.PinCid(c)
 			p.ReplicationFactorMin, p.ReplicationFactorMax = -1, -1
@@ -158,7 +169,7 @@ func PinSig(p *api.Pin) string {
 	}
 	var b strings.Builder
 	fmt.Fprintf(&b, "cid=%s type=%d depth=%d", p.Cid, p.Type, p.MaxDepth)
-	if p.Reference != nil {
+	if p.Reference != nil && p.Reference.Defined() { // a reference to the undefined CID is no reference
 		fmt.Fprintf(&b, " ref=%s", p.Reference)
 	}
 	al := api.PeersToStrings(p.Allocations)
